@@ -31,6 +31,12 @@ def parse_double_key(text, want_bits, got_bits):
     goes to strtod), and there it shows three symptoms of the known finding; anything else keeps the generic key."""
     generic = 'corr:parse-double-rounding'
     be = (want_bits >> 52) & 0x7ff
+    # pure fractions with leading zeros after the point (0.000ddd): own class (defect fixed in /repo 301c0cf: the zeros were
+    # counted as digits); the known low-range one-ulp symptom below keeps its own key, everything else of this shape goes here
+    lfz = LFZ_RE.match(text) is not None
+    mask0 = (1 << 63) - 1
+    if lfz and not (be <= 11 and abs(got_bits - want_bits) == 1 and (got_bits & mask0) != 0 and (want_bits & mask0) != 0):
+        return 'parse-double:leading-fraction-zeros'
     if be > 11: return generic
     mask = (1 << 63) - 1
     # exactly one ulp between two NON-ZERO values of the same sign (a value flushed to zero is never the known finding)
@@ -47,6 +53,9 @@ def parse_double_key(text, want_bits, got_bits):
             if k >= 1 and abs(g - w * 10.0 ** k) <= max(2e-323 * 10.0 ** k, 1e-9 * g):
                 return generic + ':grisu3-surplus-fraction-zeros:below-2^-1010'
     return generic
+
+
+LFZ_RE = re.compile(r'^-?0\.0+[0-9]')
 
 
 def grisu_ub_key(fname, lno, msg):
@@ -383,6 +392,28 @@ def gen_cases(ctx, rng, add, impl_only, doc_expect):
                     line = 'json ' + U.hx(doc)
                     doc_expect[line] = ('json', ty, None, 0, 'field %s = %s%s%s (fraction/exponent notation)' % (ty, sg, ds, tl))
                     impl_only.append(('json_doc_count_x_tail', line))
+    # ---- union type codes given as NUMBERS ("u_type": 1, "uv_type": [1, 2]): an 8-bit field, same rule as ubyte: stored exactly or refused
+    body_of = {1: '{"x":5}', 2: '{"y":5}'}
+    ucodes = [0, 1, 2, 3, 100, 254, 255, 256, 257, 258, 259, 511, 512, 513, 514, 65536, 65537, 65538, 2 ** 32 + 1, 2 ** 32 + 2, TWO64 - 255, TWO64 + 1, TWO64 + 257,
+              -1, -2, -255, -254, -256, -257]
+    for _ in range(40 if T else 10): ucodes.append(rng.randrange(1, 2 ** rng.choice([9, 16, 24, 33, 62])) * 256 + rng.choice([1, 2]))
+    uforms = [(str(c), c) for c in ucodes] + [('1e3', None), ('257.0', None), ('1.0', None), ('"257"', None), ('"1"', None), ('00257', 257), ('01', 1), ('-0', None), ('2e0', None)]
+    for txt, code in uforms:
+        fits = code is not None and 0 <= code <= 255
+        b = body_of.get((code if code is not None else 1) % 256, '{}')
+        docs = ['{"u_type":%s,"u":%s}' % (txt, b), '{"u":%s,"u_type": %s }' % (b, txt), '{"u_type":%s}' % txt]
+        for doc in docs:
+            line = 'json ' + U.hx(doc.encode())
+            doc_expect[line] = ('jsonu', 'u_type', [code] if fits else None, abs(code) if code is not None else 0, 'union type code %s' % txt)
+            impl_only.append(('json_union_type', line))
+        for other in (1, 2):
+            codes = [other, code] if rng.random() < 0.5 else [code, other]
+            ts = [txt if c is code else str(c) for c in codes]
+            bodies = [body_of.get((c if c is not None else 1) % 256, 'null') for c in codes]
+            for doc in ('{"uv_type":[%s],"uv":[%s]}' % (','.join(ts), ','.join(bodies)), '{"uv":[%s],"uv_type":[%s]}' % (','.join(bodies), ', '.join(ts))):
+                line = 'json ' + U.hx(doc.encode())
+                doc_expect[line] = ('jsonu', 'uv_type', codes if fits else None, abs(code) if code is not None else 0, 'union type vector element %s' % txt)
+                impl_only.append(('json_union_type', line))
     for _ in range(60 if T else 15):
         n = rng.randint(1, 6)
         xs = [rng.choice([0, 1, -1, 2 ** 31 - 1, -2 ** 31, rng.randrange(-2 ** 31, 2 ** 31)]) for _ in range(n)]
@@ -457,6 +488,27 @@ def gen_cases(ctx, rng, add, impl_only, doc_expect):
     for s in ('1e22', '1e23', '9007199254740992', '9007199254740993', '9007199254740991e22', '9007199254740992e22', '9007199254740993e22', '9007199254740991e23',
               '8.98846567431158e307', '1e-22', '1e-23', '123456789012345678e-18', '1234567890123456789e-19', '12345678901234567890e-20', '123456789012345678901e-21'):
         ftexts.add(s)
+    # ---- class leading-fraction-zeros: 0.<z zeros><1..17 digits>[e<+-k>], both signs (the zeros must scale the value, not count as digits)
+    lfz_texts = set()
+    for z in list(range(0, 31)) + [100, 300] + list(range(320, 346)) + [349, 400, 900]:
+        dss = ['1', '5', '9', '12345678901234567', str(rng.randrange(1, 10 ** rng.randint(1, 17))), str(rng.randrange(10 ** 16, 10 ** 17))]
+        if T: dss += [str(rng.randrange(1, 10 ** rng.randint(1, 17))) for _ in range(6)]
+        for ds in dss:
+            base = '0.' + '0' * z + ds
+            exps = [None, rng.choice([None, 'e-5', 'e5', 'e+22', 'e23', 'e-22', 'e-23', 'e%d' % z, 'e+%d' % (z + 1), 'e%d' % (z + len(ds)), 'E%d' % max(0, z - 300), 'e-%d' % rng.randint(1, 340)])]
+            for ex in dict.fromkeys(exps):
+                t = ('-' if rng.random() < 0.25 else '') + base + (ex or '')
+                if len(t) < 990: lfz_texts.add(t)
+    for s in sorted(lfz_texts):
+        term = rng.choice([b',', b'}', b']', b' ', b'\n'])
+        impl_only.append(('leading_fraction_zeros', 'sd ' + U.hx(s.encode() + term)))
+        impl_only.append(('leading_fraction_zeros', 'jd ' + U.hx(s.encode() + term)))
+        if rng.random() < 0.5:
+            impl_only.append(('leading_fraction_zeros', 'sf ' + U.hx(s.encode() + term)))
+            impl_only.append(('leading_fraction_zeros', 'jf ' + U.hx(s.encode() + term)))
+    for s in rng.sample(sorted(lfz_texts), 40):
+        doc = ('{"d": %s}' % s).encode()
+        line = 'json ' + U.hx(doc); doc_expect[line] = ('jsonf', 'd', s, 0, 'field d = %s' % s[:60]); impl_only.append(('leading_fraction_zeros', line))
     for s in sorted(ftexts):
         term = rng.choice([b',', b'}', b']', b' ', b'\n'])
         impl_only.append(('double_text', 'sd ' + U.hx(s.encode() + term)))
@@ -675,7 +727,8 @@ def judge_impl_only(ctx, klass, line, i, doc_expect, oracle_q):
                              parse_double_key(text, want_bits, int(b)), {'harness_line': line, 'text': text, 'python_float_bits': want_bits}))
         elif int(b) != want_bits:
             # float = (float)(double) by design; judged against the same two-step rounding
-            viol(ctx, 'corr:parse-float-rounding', '%s("%s") = bits %s, two-step rounding gives %d' % (name, text, b, want_bits), line, None, i)
+            viol(ctx, 'parse-double:leading-fraction-zeros' if LFZ_RE.match(text) else 'corr:parse-float-rounding',
+                 '%s("%s") = bits %s, two-step rounding gives %d' % (name, text[:80], b, want_bits), line, None, i)
         return
     if cmd in ('phex', 'phtyp'):
         pv = prop_hex_parse(cmd, f[1] if cmd == 'phtyp' else None, U.unhx(f[-1]), i)
@@ -686,6 +739,25 @@ def judge_impl_only(ctx, klass, line, i, doc_expect, oracle_q):
         if exp is None: return
         fam, ty, want, mag, desc = exp
         doc = U.unhx(f[1]).decode('latin1')
+        if fam == 'jsonu':
+            # union type code(s): `want` is the list of codes that fit 8 bits (then: refused, or stored exactly) or None (must be refused)
+            names = {0: 'NONE', 1: 'A', 2: 'B'}
+            if not i.startswith('OK'): return
+            printed = U.unhx(i.split()[1]).decode('latin1')
+            if want is None:
+                key = 'json-integer-wrap' if mag >= TWO64 else 'json-narrowing:union-type'
+                viol(ctx, key, 'generated parser accepted %s (%s does not fit the 8-bit union type or is not an integer) and stored %s' % (doc, desc, printed), line, None, i)
+                return
+            try: got = json.loads(printed).get(ty, None)
+            except ValueError:
+                viol(ctx, 'json-doc-print', 'printer output is not JSON: %s' % printed, line, None, i); return
+            if ty == 'u_type':
+                okv = got in (want[0], names.get(want[0])) or (want[0] == 0 and got is None)
+            else:
+                okv = isinstance(got, list) and len(got) == len(want) and all(g in (w, names.get(w)) for g, w in zip(got, want))
+            if not okv:
+                viol(ctx, 'json-wrong-value:union-type', 'parse + print of %s gives %s = %s, the text says %s' % (doc, ty, got, want), line, None, i)
+            return
         if fam == 'jsonf':
             s = want
             try: d = float(s)
